@@ -418,6 +418,10 @@ func ambientCallee(fn *types.Func) string {
 	sig, _ := fn.Type().(*types.Signature)
 	isMethod := sig != nil && sig.Recv() != nil
 	switch {
+	case p == "time" && !isMethod && n == "LoadLocation":
+		return "time.LoadLocation" // the name "Local" answers the zone of the process ($TZ, /etc/localtime)
+	case p == "time" && isMethod && n == "Local":
+		return "time.Time.Local"
 	case p == "time" && !isMethod && (n == "Now" || n == "Since" || n == "Until" || n == "After" || n == "Tick" || n == "NewTimer" || n == "NewTicker" || n == "AfterFunc"):
 		return "time." + n
 	case (p == "math/rand" || p == "math/rand/v2") && !isMethod && n != "New" && n != "NewSource" && n != "NewPCG" && n != "NewChaCha8" && n != "NewZipf":
@@ -473,6 +477,9 @@ func (a *analyzer) ambientCalls() []ambient {
 						if c := ambientCallee(fn); c != "" {
 							res = append(res, ambient{rel, name, c, a.pos(id.Pos())})
 						}
+					}
+					if v, ok := p.TypesInfo.Uses[id].(*types.Var); ok && v.Pkg() != nil && v.Pkg().Path() == "time" && v.Name() == "Local" && !v.IsField() {
+						res = append(res, ambient{rel, name, "time.Local", a.pos(id.Pos())})
 					}
 					return true
 				})
@@ -905,12 +912,14 @@ type loopCtx struct {
 	ownRead      map[*ast.Ident]bool        // occurrences that belong to the variable's own accumulation statement
 	flagConsts   map[string]map[string]bool // target -> the constants assigned to it
 	retConsts    map[string]bool            // the constant tuples returned
+	retErrs      map[string]bool            // the source texts of the error tuples returned
+	retErrLocal  bool                       // a returned error is built from the key, the value or another variable of the body
 }
 
 func (a *analyzer) loopEffects(info *types.Info, encl ast.Node, loop *ast.RangeStmt, named bool) []string {
 	c := &loopCtx{a: a, info: info, encl: encl, loop: loop, effects: map[string]bool{}, namedResults: named,
 		defs: map[types.Object]ast.Expr{}, written: map[types.Object]bool{}, ownRead: map[*ast.Ident]bool{},
-		flagConsts: map[string]map[string]bool{}, retConsts: map[string]bool{}}
+		flagConsts: map[string]map[string]bool{}, retConsts: map[string]bool{}, retErrs: map[string]bool{}}
 	if id, ok := loop.Key.(*ast.Ident); ok && id.Name != "_" {
 		c.keyObj = objOf(info, id)
 	}
@@ -932,6 +941,12 @@ func (a *analyzer) loopEffects(info *types.Info, encl ast.Node, loop *ast.RangeS
 	}
 	if len(c.retConsts) > 1 {
 		delete(c.effects, "EReturnConst")
+		c.add("EReturnValue")
+	}
+	// EReturnErr stands for ONE error whose text does not depend on the entry that raised it: with two different error
+	// returns (or a text built from the key / value) WHICH error comes back depends on the iteration order
+	if c.effects["EReturnErr"] && (len(c.retErrs) > 1 || c.retErrLocal) {
+		delete(c.effects, "EReturnErr")
 		c.add("EReturnValue")
 	}
 	c.loopCarried()
@@ -1361,6 +1376,16 @@ func (c *loopCtx) returnKind(r *ast.ReturnStmt) string {
 	if len(r.Results) == 0 && c.namedResults {
 		kind = "EReturnValue" // naked return: named results may carry loop state
 	}
+	if kind == "EReturnErr" {
+		parts := make([]string, len(r.Results))
+		for i, e := range r.Results {
+			parts[i] = types.ExprString(e)
+			if isErrorType(c.info.TypeOf(e)) && !isConstExpr(c.info, e) && c.refsLoopLocal(e) {
+				c.retErrLocal = true
+			}
+		}
+		c.retErrs[strings.Join(parts, ",")] = true
+	}
 	if kind == "EReturnConst" {
 		parts := make([]string, len(r.Results))
 		for i, e := range r.Results {
@@ -1369,6 +1394,20 @@ func (c *loopCtx) returnKind(r *ast.ReturnStmt) string {
 		c.retConsts[strings.Join(parts, ",")] = true
 	}
 	return kind
+}
+
+// refsLoopLocal: does e mention the key, the value or any variable declared inside the loop?
+func (c *loopCtx) refsLoopLocal(e ast.Expr) bool {
+	found := false
+	ast.Inspect(e, func(n ast.Node) bool {
+		if id, ok := n.(*ast.Ident); ok {
+			if o, ok := c.info.Uses[id].(*types.Var); ok && !o.IsField() && o.Pos() >= c.loop.Pos() && o.Pos() <= c.loop.End() {
+				found = true
+			}
+		}
+		return !found
+	})
+	return found
 }
 
 // expressions: look for callbacks, stream consumption, function literals, nested order calls
